@@ -21,8 +21,8 @@ from fractions import Fraction
 from .common import REPO, add_failure, bump, new_outcome, rat, unrat
 
 PROP = "C16"
-PROPS_FILES = ["CogentModel/Props/C16.lean"]
-LEAN_TARGETS = ["CogentModel.Props.C16"]
+PROPS_FILES = ["CogentModel/Props/C16.lean", "CogentModel/Props/C16Link.lean"]
+LEAN_TARGETS = ["CogentModel.Props.C16", "CogentModel.Props.C16Link"]
 DRIVER = "drv_c16"
 TRUSTED = [
     "hand-written model lean/CogentModel/Model/Optimiser.lean of maximise's wrapper stack (limited_use, "
@@ -1143,7 +1143,11 @@ def correspondence(ctx):
         "scoped_rules_preserve_values_checked evaluated on them; non-trivial = wfrB holds and some rich rule is not key-matched. "
         "(G) update_param_rules WITH SCOPES + the whole rule pipeline on the projection objects / rule lists captured inside the real "
         "initialise_from_nested (time-heterogeneous nulls: per edge / per clade / mixed constants); hypotheses nestedSame, onePerEdgeB, "
-        "distinct rich names, wfrB evaluated on them; non-trivial = all hypotheses hold and some nested rate rule is edge-scoped"
+        "distinct rich names, wfrB evaluated on them; non-trivial = all hypotheses hold and some nested rate rule is edge-scoped. "
+        "(H) optimise_never_lowers_lnL: REAL Calculator.optimise (real maximise, scripted optimisers incl. exact reversals, out-of-bounds "
+        "points, raising cells, evaluation limits, an earlier call history) on real toy calculators (OptPar/EvaluatedCell graphs, recycling "
+        "cells) vs drv_c16 maximise on the from-scratch value table composed with drv_c07 replaying its call sequence: final vector, whole "
+        "buffer, exception, number of calls; non-trivial = >= 3 objective calls"
     )
     _corr_scripted(ctx, out)
     _corr_real_optimisers(ctx, out)
@@ -1152,6 +1156,10 @@ def correspondence(ctx):
     _corr_scoped(ctx, out)
     _corr_scoped_real(ctx, out)
     _corr_scoped_proj(ctx, out)
+    # (H) the C16 x C07 link: real Calculator.optimise on real toy calculators vs the composed models
+    from . import c16_link
+
+    c16_link.corr_link(ctx, out)
     return out
 
 
